@@ -105,7 +105,8 @@ def gen_case(rng, index, tier):
         else:
             steps.append({'op': 'empty',
                           'days': rng.choice([None, None, 0, 1, 2, 7]),
-                          'shift_h': rng.choice([0, 1, 23, 25, 47, 49, 24 * 7 + 1])})
+                          'shift_h': rng.choice([0, 1, 23, 25, 47, 49, 24 * 7 + 1,
+                                               -1, -30, 0])})
     case = L.desc()
     case['slots'] = slots
     case['pre'] = pre
